@@ -117,7 +117,32 @@ AdmissibleStep(ctx, mayDot, ab, X) ==
 (* the empty list are the same directory ("/./" = "/", "./" = ""): the abstract    *)
 (* value may be either, and a behaviour forks on which one the implementation has. *)
 LoneAlts(X, lone) ==
-    IF lone /\ (DropLeadDot(X) = <<>> \/ DropLeadDot(X) = << <<>> >>) THEN {<<>>, << <<>> >>} ELSE {X}
+    IF lone /\ (DropLeadDot(X) = <<>> \/ DropLeadDot(X) = << <<>> >>)
+    THEN {<<>>, << <<>> >>}
+         \* a "." left over in front of nothing is either a spent shield or a segment of its own
+         \cup (IF X # <<>> /\ X[1] = DOT THEN {<<DOT>>, <<DOT, <<>>>>} ELSE {})
+    ELSE {X}
+
+(* The abstract results of an operation.  For the symbolic operations the final   *)
+(* "directory" slash is added when the path "has segments", which for a list made *)
+(* of one empty segment depends on how it is written ("/" has none, "/./" has):   *)
+(* both outcomes are results; together with LoneAlts a behaviour forks on them.   *)
+IsLone(X) == DropLeadDot(X) = <<>> \/ DropLeadDot(X) = << <<>> >>
+\* set-valued symbolic fold: after a ".." the list may read either way when it is lone
+SymStepSet(ab, st, s) ==
+    LET n == SymStep(ab, st, s)
+    IN  IF s = DOTDOT THEN {<<A, n[2]>> : A \in LoneAlts(n[1], TRUE)} ELSE {n}
+RECURSIVE SymFoldSet(_, _, _)
+SymFoldSet(ab, S, ss) ==
+    IF ss = <<>> THEN S ELSE SymFoldSet(ab, UNION {SymStepSet(ab, st, Head(ss)) : st \in S}, Tail(ss))
+ResultsOf(ab, X, op) ==
+    IF op[1] \in {"sym_push", "sym_append"}
+    THEN LET ss == IF op[1] = "sym_push" THEN <<op[2]>> ELSE op[2]
+             R  == SymFoldSet(ab, {<<X, FALSE>>}, ss)
+         IN  UNION {IF r[2] /\ IsLone(r[1]) THEN {r[1], Append(r[1], <<>>)}
+                    ELSE IF r[2] THEN {Append(r[1], <<>>)} ELSE {r[1]} : r \in R}
+    ELSE {ApplyPathOp(ab, X, op)}
+AltsOf(ab, X, op) == UNION {LoneAlts(Y, LoneOk(op[1])) : Y \in ResultsOf(ab, X, op)}
 
 (***************************************************************************)
 (* C11: authority editing through a handle with a window <<start, len>>    *)
